@@ -96,7 +96,7 @@ def run(ctx, chk):
             chk.ob('C06.D1', 'covered:%s' % key, key in covered, m.body.where(0),
                    'no Ok path of now() covers %s' % key if key not in covered else 'covered by %s' % sorted(covered[key]),
                    nontrivial=False)
-    chk.floor('C06.D1', 'Ok paths of now()', n_ok_paths, 3)
+    chk.floor('C06.D1', 'Ok paths of now()', n_ok_paths, 1)
     chk.tables['extracted'] = {k: sorted(v) for k, v in sorted(table.items())}
     chk.tables['oracle'] = {'%s/R%d' % (s, i + 1): ORACLE[s][i] for s in ORACLE for i in range(3)}
 
